@@ -62,6 +62,10 @@ class GMRFPiecewiseCoalescentBlockUpdatingOperator(MCMCOperator):
         return math.sqrt(self._scaler - 1)
 
     def set_adaptable_parameter(self, value: float) -> None:
+        # sqrt(scaler - 1) cannot go below 0 (scaler = 1: the precision is not
+        # moved); without the bound a negative value is reflected by the square
+        # and a low acceptance makes the proposal bolder
+        value = max(value, 0.0)
         self._scaler = 1 + value * value
 
     def propose_precision(self):
